@@ -23,7 +23,7 @@ def run(report, tier):
                 claim="DecayMode.to_dict has bf, canonical daughters, model information and every metadata entry; from_dict(to_dict()) equals "
                       "the original (bf, daughters multiset, all metadata incl. nested user values) and shares nothing with the dictionary",
                 bounds=f"{len(H.FS_PATTERNS)} final states (multiplicities <= 3) x {H.META_SHAPES} metadata shapes",
-                symbolic="bf (any non-NaN float), one int and one str (len <= 3) metadata value, also nested in lists / dicts",
+                symbolic="bf (any non-NaN float), one int and one str (len <= 3) metadata value, also nested in lists / dicts; None as a top-level and a nested metadata value",
                 functions=FUNCS, shards=14, timeout=600, sample={"fs": {"K+": 1, "K-": 2}, "meta": "zfit={B0: ms, n: [mi, mi]}"}),
         Harness(name="chain", module="harness.c11", body="body_chain", sig="sel: int, b0: int, b1: int, b2: int, b3: int, b4: int", n_sel=H.N_CHAIN,
                 claim="DecayChain.to_dict is the recursive per-position unfolding (also when a decaying particle occurs several times); "
